@@ -72,7 +72,7 @@ func decIntrinsics(in *interp, notOne bool) {
 		}
 		lower := strings.ToLower(nm[:1]) + nm[1:]
 		for _, alias := range []string{nm, lower} {
-			if fd := p.Funcs[alias]; fd != nil && fd.Recv == nil && len(paramObjs(p, fd)) == 1 {
+			if fd := p.Funcs[alias]; fd != nil && fd.Recv == nil && fd.Type.Params != nil && fd.Type.Params.NumFields() == 1 {
 				in.intrinsics[alias] = func(in *interp, st *state, call *ast.CallExpr, recv AV, args []AV) ([]AV, bool) {
 					if len(args) == 1 {
 						return f(in, st, call, args[0], nil)
